@@ -10,7 +10,7 @@ import re
 import shutil
 import time
 
-from vcommon import Infra, build_harness, copy_specs, monitor_report, run, scratch_dir, tlc, tlc_errors, tlc_stats, tlc_violations
+from vcommon import Infra, drive, build_harness, copy_specs, monitor_report, run, scratch_dir, tlc, tlc_errors, tlc_stats, tlc_violations
 
 PROPS = ["C19"]
 DESIGN = {"quick": ["FileLayout_1.cfg", "FileLayout_2.cfg"], "thorough": ["FileLayout_1.cfg", "FileLayout_2.cfg", "FileLayout_wide.cfg"]}
@@ -44,9 +44,7 @@ def compute(tier, seed):
             design["transitions"] += g
         lbin = build_harness("layout")
         outdir = os.path.join(work, "run")
-        rc, txt, hsecs = run([lbin, "-out", outdir, "-seed", str(seed), "-tier", tier], timeout=5400, check=False)
-        if rc != 0:
-            raise Infra("layout harness failed: " + txt[-2000:])
+        txt, hsecs = drive([lbin, "-out", outdir, "-seed", str(seed), "-tier", tier], work, "layout", timeout=5400)
         summary = json.load(open(os.path.join(outdir, "summary.json")))
         rep, stats = monitor(work, os.path.join(outdir, "obs.ndjson"))
         obs, cases = {}, {}
